@@ -8,8 +8,8 @@
                ';' separators, trailing separator) are printed as they are.
    [norm e]    the tree the parser must return for [print e]: spellings are
                replaced by what they denote; explicit parentheses disappear
-               except around a call (where they truncate to one value:
-               ast.BFunctionCall).
+               except around the multi-valued expressions, a call or '...'
+               (where they adjust to one value).
    [plain e]   e contains no spelling constructor and no parentheses except
                around calls; then [norm e = e] and [print e] is the printing
                with the minimal parentheses ("print_min"). *)
@@ -90,14 +90,19 @@ Fixpoint raw (e : exp) : list token :=
 
 Definition print (e : exp) : list token := raw e.
 
+(* '...' as the head of a prefix expression is necessarily written (...), which
+   the parser keeps as a node *)
+Definition ntarget (t nt : exp) : exp := match t with EEtc => EParen EEtc | _ => nt end.
+Definition is_etc (e : exp) : bool := match e with EEtc => true | _ => false end.
+
 (* what the spellings denote = what the parser returns *)
 Fixpoint norm (e : exp) : exp :=
   match e with
   | ELStr k => EStr k
-  | EIndex t i => EIndex (norm t) (norm i)
-  | EDot t k => EIndex (norm t) (EStr k)
-  | ECall f m _ args => ECall (norm f) m false (map norm args)
-  | EParen x => let x' := norm x in if is_call x' then EParen x' else x'
+  | EIndex t i => EIndex (ntarget t (norm t)) (norm i)
+  | EDot t k => EIndex (ntarget t (norm t)) (EStr k)
+  | ECall f m _ args => ECall (ntarget f (norm f)) m false (map norm args)
+  | EParen x => in_brackets (norm x)
   | ETable fs _ =>
     ETable (map (fun f : field =>
                    match f with
@@ -114,9 +119,9 @@ Fixpoint norm (e : exp) : exp :=
 Fixpoint plain (e : exp) : bool :=
   match e with
   | ELStr _ | EDot _ _ => false
-  | EIndex t i => plain t && plain i
-  | ECall f _ bare args => plain f && negb bare && forallb plain args
-  | EParen x => is_call x && plain x
+  | EIndex t i => negb (is_etc t) && plain t && plain i
+  | ECall f _ bare args => negb (is_etc f) && plain f && negb bare && forallb plain args
+  | EParen x => multi_valued x && plain x
   | ETable fs trail =>
     negb trail &&
     forallb (fun f : field =>
@@ -145,13 +150,4 @@ Fixpoint size (e : exp) : nat :=
   | EUn _ x => S (size x)
   | EBin _ l r => S (size l + size r)
   | _ => 1
-  end.
-
-(* Lua 5.4 manual §3.4.12: function calls and '...' are the multi-valued
-   expressions; enclosing one in parentheses truncates it to one value, so for
-   them (and only for them) parentheses are meaningful. *)
-Definition multi_valued (e : exp) : bool :=
-  match e with
-  | ECall _ _ _ _ | EEtc => true
-  | _ => false
   end.
